@@ -34,8 +34,16 @@ def canon_model(op, mres):
     return mres
 
 
+# fixes F12-readOptHeader / F12-align32: where the model of the parser says the *original* code panics, the repaired code
+# returns these errors; the model keeps the panic outcome (its trigger is characterised by readHeaders_panic_iff)
+GUARDED = {"panic readOptHeader:buf[:2]": ("err eof",),
+           "panic align32:divide-by-zero": ("err other:PE_file_alignment_is_zero",)}
+
+
 def equiv(op, il, mres):
     if il == mres:
+        return True
+    if il in GUARDED.get(mres, ()):
         return True
     f = op.split()
     # the locator found the blobs; the harness' fake blobs then fail PKCS#7 parsing, which is outside the model
